@@ -106,7 +106,7 @@ def replay_file(path, preds=(oracle_pred,), need_model=True, use_cmps=True):
     inv_cmp = {v: k for k, v in S.CMP.items()}; inv_uv = {v: k for k, v in S.UVEC.items()}
     cfg = S.SetCfg('flat' if d['CFG_IMPL'] == '0' else 'small', int(d['CFG_N']), 'std' if d['CFG_BACK'] == '0' else 'flat',
                    inv_uv[int(d['CFG_UVEC'])], inv_cmp[int(d['CFG_CMP'])], 'int' if d['CFG_CAT'] == '0' else 'ntr',
-                   pool=int(dict(t.split('=') for t in cfgl[0].split()[1:]).get('pool', 3)))
+                   pool=int(dict(t.split('=') for t in cfgl[0].split()[1:]).get('pool', 3)), ucap=int(d.get('CFG_UCAP', 64)))
     script = [l for l in lines if l and not l.startswith('#') and not l.startswith('cfg ') and '=' not in l.split()[0] and l != '---']
     C.translate(); C.lake_build(['amcdriver'])
     bins, errs = S.build([cfg])
